@@ -50,7 +50,7 @@ def gen_cases(rng, tier):
         sensitive = rng.random() < 0.3
         cfg = cfg_for(rng, sensitive)
         h = []
-        kind = rng.choice(['simple', 'simple', 'held-across', 'nested', 'recursive', 'switch-record', 'rerecord', 'limit', 'empty', 'random', 'record-key-held', 'truncate-held', 'boundary-repress'])
+        kind = rng.choice(['simple', 'simple', 'held-across', 'nested', 'recursive', 'switch-record', 'rerecord', 'limit', 'empty', 'random', 'record-key-held', 'truncate-held', 'boundary-repress', 'limit-rollover', 'limit-rollover'])
         single = rng.random() < 0.7      # at most one typing key down at a time: the order of the final releases is then determined
         def ty_(n, hold_across=False):
             return typing(rng, n, hold_across, single)
@@ -104,6 +104,15 @@ def gen_cases(rng, tier):
             k = rng.choice(['a', 's', 'd'])
             k2 = rng.choice(['f', 'a'])
             h = tap('g') + ty + ['d%d' % C[k], 't3'] + (tap(k2) if k2 != k and rng.random() < 0.6 else []) + tap('l') + ['t5', 'u%d' % C[k], 't5'] + tap('j') + ['t900']
+        elif kind == 'limit-rollover':
+            # the recording ends by itself at the size limit, and the press that exceeds it comes while another key is still down
+            mp = rng.choice([1, 2, 3])
+            cfg = re.sub(r'dynamic-macro-max-presses \d+', 'dynamic-macro-max-presses %d' % mp, cfg)
+            h = tap('g')
+            for k in ['a', 's', 'd'][:mp - 1]:
+                h += tap(k)
+            k1, k2 = rng.sample(['a', 's', 'd', 'f'], 2)
+            h += ['d%d' % C[k1], 't3', 'd%d' % C[k2], 't3', 'u%d' % C[k1], 't3', 'u%d' % C[k2], 't5'] + tap('h') + ['t10'] + tap('j') + ['t600']
         elif kind == 'boundary-repress':
             # a key that is down when recording starts, let go and pressed again during the recording, still down when it stops
             k = rng.choice(['a', 's', 'd'])
